@@ -298,6 +298,9 @@ def amdpLine : P String := do
   -- belief's most likely state (theorem discretize_lt covers the arithmetic; the entropy term is not modelled)
   let v := v.failIf (bs.any (fun (_, i) => decide (i ≥ S0 * buckets))) s!"AMDP::makeDiscretizer index_out_of_range"
   let v := v.diffIf (bs.any (fun (b, i) => i % S0 != argmaxBelief b)) s!"AMDP::makeDiscretizer base_state"
+  -- a belief with zero entropy (every entry exactly 0 or 1) belongs to the lowest-entropy bucket, whatever S is
+  let v := v.failIf (bs.any (fun (b, i) => b.all (fun q => decide (q = 0) || decide (q = 1)) && i / S0 != 0))
+             s!"AMDP::makeDiscretizer zero_entropy_belief_not_in_bucket_0"
   -- correspondence with the modelled accumulate-and-normalise phase
   let guarded := AITB.Gen.Guards.amdpDenseGuardedDivide
   let v := v.diffIf (!(all3 A S1 S1 (fun a s s1 => xclose (.fin (amdpT evs S1 a s s1)) (get3 T a s s1)))) s!"{comp} transitions"
